@@ -32,6 +32,12 @@ func genPrelude() string {
 (define-fun go.mod ((a Int) (b Int)) Int (- a (* b (go.div a b))))
 (declare-fun idx (Int Int) Int)
 (assert (forall ((o Int) (i Int)) (! (= (idx o i) (+ o i)) :pattern ((idx o i)))))
+(declare-sort BSeq 0)
+(declare-fun bseq ((Array Int Int) Int Int) BSeq)
+(declare-fun bseq.str (Str) BSeq)
+(declare-fun bs.len (BSeq) Int)
+(declare-fun bs.lt (BSeq BSeq) Bool)
+(declare-fun bs.pfx (BSeq Int) BSeq)
 (declare-fun nl.div (Int Int) Int)
 (declare-fun nl.mod (Int Int) Int)
 (declare-fun nl.mul (Int Int) Int)
@@ -106,6 +112,25 @@ func genBitsPrelude() string {
 	return sb.String()
 }
 
+// bseqPrelude: byte sequences as an abstract totally ordered sort (A-LEX). bseq(A,o,n) is the content of the
+// window [o,o+n) of backing array A; bs.lt is bytes.Compare < 0; bs.pfx(s,l) is s[:min(len s, l)].
+const bseqPrelude = `(assert (forall ((a BSeq)) (! (not (bs.lt a a)) :pattern ((bs.lt a a)))))
+(assert (forall ((a BSeq) (b BSeq)) (! (or (bs.lt a b) (= a b) (bs.lt b a)) :pattern ((bs.lt a b)))))
+(assert (forall ((a BSeq) (b BSeq)) (! (not (and (bs.lt a b) (bs.lt b a))) :pattern ((bs.lt a b)))))
+(assert (forall ((a BSeq) (b BSeq) (c BSeq)) (! (=> (and (bs.lt a b) (bs.lt b c)) (bs.lt a c)) :pattern ((bs.lt a b) (bs.lt b c)))))
+(assert (forall ((A (Array Int Int)) (o Int) (n Int)) (! (=> (>= n 0) (= (bs.len (bseq A o n)) n)) :pattern ((bseq A o n)))))
+(assert (forall ((s Str)) (! (= (bs.len (bseq.str s)) (gs.len s)) :pattern ((bseq.str s)))))
+(assert (forall ((A (Array Int Int)) (o Int) (n Int) (m Int)) (! (=> (and (<= 0 m) (<= m n)) (= (bseq A o m) (bs.pfx (bseq A o n) m))) :pattern ((bseq A o m) (bseq A o n)))))
+(declare-const bs.empty BSeq)
+(assert (= (bs.len bs.empty) 0))
+(assert (forall ((a BSeq)) (! (and (>= (bs.len a) 0) (=> (= (bs.len a) 0) (= a bs.empty))) :pattern ((bs.len a)))))
+(assert (forall ((a BSeq) (l Int)) (! (=> (>= l (bs.len a)) (= (bs.pfx a l) a)) :pattern ((bs.pfx a l)))))
+(assert (forall ((a BSeq) (l Int)) (! (=> (and (<= 0 l) (<= l (bs.len a))) (= (bs.len (bs.pfx a l)) l)) :pattern ((bs.pfx a l)))))
+(assert (forall ((a BSeq) (b BSeq) (l Int)) (! (=> (and (>= l 0) (not (bs.lt b a))) (not (bs.lt (bs.pfx b l) (bs.pfx a l)))) :pattern ((bs.pfx a l) (bs.pfx b l)))))
+(assert (forall ((a BSeq) (l Int) (m Int)) (! (=> (and (<= 0 l) (<= l m)) (= (bs.pfx (bs.pfx a m) l) (bs.pfx a l))) :pattern ((bs.pfx (bs.pfx a m) l)))))
+(assert (forall ((a BSeq) (b BSeq)) (! (=> (and (= (bs.pfx b (bs.len a)) a) (not (= a b))) (bs.lt a b)) :pattern ((bs.pfx b (bs.len a)) (bs.lt a b)))))
+`
+
 var prelude = genPrelude()
 var bitsPrelude = genBitsPrelude()
 
@@ -115,6 +140,9 @@ func (c *Ctx) queryText(o *Obligation, forModel bool) string {
 	sb.WriteString(prelude)
 	if c.usesBits {
 		sb.WriteString(bitsPrelude)
+	}
+	if c.usesBSeq {
+		sb.WriteString(bseqPrelude)
 	}
 	for _, l := range c.sortCmds {
 		sb.WriteString(l + "\n")
